@@ -61,6 +61,7 @@ func runC15(p *chk.Prog, r *chk.Report) {
 	c15Dump(p, r)
 	c15MapOrder(p, r)
 	c15DedupSort(p, r)
+	c15Accumulate(p, r)
 	c15Password(p, r)
 	c15Node(p, r)
 	c15Params(p, r)
@@ -142,6 +143,11 @@ func c15MapOrder(p *chk.Prog, r *chk.Report) {
 		x.Check("total-order:"+key, u.Call.Pos(), ok, "", "a map-ordered list is sorted by a comparator that is not a unique key of its elements (ties stay in map order), or that indexes another slice")
 	}
 	x.Check("coverage", 0, a.Loops >= 5 && len(a.SortSanitisers) >= 3, "", "fewer map-range loops / comparator sorts analysed than on the confirmed tree")
+}
+
+func c15Accumulate(p *chk.Prog, r *chk.Report) {
+	x := r.Rule("ACCUMULATE", "B path", "in package frrk8s every accumulation m[k] = append(m[k'], v) reads the entry it writes (k and k' are the same expression): the per-community and per-local-preference prefix groups are built this way", 2)
+	appendSameKeyRule(x, p, fk8Pkg)
 }
 
 func c15DedupSort(p *chk.Prog, r *chk.Report) {
